@@ -294,3 +294,117 @@ func TestCrashDuringForkSwitch(t *testing.T) {
 		evid.Sample("scenario", fmt.Sprintf("ApplyFork own=+%d fork=+%d: %d writes", ownLen, forkLen, W))
 	})
 }
+
+// A crash at any storage write while finishing a fast sync (preliminary
+// identity state, header writes, snapshot import, atomic switch): the node
+// restarts consistently (old head or synced head) and then reaches the
+// source's head by applying blocks.
+func TestCrashDuringFastSync(t *testing.T) {
+	rapid.Check(t, func(t *rapid.T) {
+		steps := rapid.IntRange(6, 16).Draw(t, "steps")
+		earlyAt := rapid.IntRange(0, 4).Draw(t, "syncFrom")
+		var early dbm.DB
+		opt := sim.Options{MinActors: 3, MaxActors: 7, Replicas: 1, MaxReplicas: 3, Steps: steps, MaxTxPerStep: 5}
+		opt.BetweenBlocks = func(h *sim.History) {
+			if len(h.Blocks) == earlyAt && early == nil {
+				early = sim.CopyDB(h.W.Replicas[0].DB)
+			}
+		}
+		h := sim.RunHistory(t, opt)
+		w := h.W
+		src := w.Replicas[0]
+		target := src.Head().Height() - uint64(rapid.IntRange(0, 2).Draw(t, "snapshotBack"))
+		like := &sim.Replica{Key: w.Actors[1].Key, Addr: w.Actors[1].Addr, Ipfs: src.Ipfs}
+		dry := crashdb.New(early)
+		n0, err := nodeOn(t, w, "dry", dry, like)
+		if err != nil {
+			t.Fatalf("start: %v", err)
+		}
+		if target <= n0.Head().Height() {
+			return
+		}
+		oldHead := n0.Head().Height()
+		dry.Arm(0)
+		switchAt := 0
+		if _, err := sim.FastSync(src, n0, target, func() { switchAt = dry.Writes() }); err != nil {
+			t.Fatalf("fast sync against an honest source fails: %v\nhistory:\n%s", err, h.Summary())
+		}
+		W := dry.Writes()
+		writeLog := append([]string{}, dry.Log...)
+		evid.Count("scenario.FastSync")
+		evid.CountN("writes.total", W)
+		// every write from the switch on, and a drawn sample of the (many) writes before it
+		points := map[int]bool{W + 1: true}
+		for k := switchAt + 1; k <= W; k++ {
+			points[k] = true
+		}
+		for i := 0; i < 25 && switchAt > 0; i++ {
+			points[rapid.IntRange(1, switchAt).Draw(t, "earlyPoint")] = true
+		}
+		for k := 1; k <= W+1; k++ {
+			if !points[k] {
+				continue
+			}
+			evid.Eval()
+			cdb := crashdb.New(early)
+			n, err := nodeOn(t, w, "crash", cdb, like)
+			if err != nil {
+				t.Fatalf("start: %v", err)
+			}
+			cdb.Arm(k)
+			crashed, other := runCrashing(func() {
+				if _, err := sim.FastSync(src, n, target, nil); err != nil {
+					t.Fatalf("fast sync on the crash node: %v", err)
+				}
+			})
+			if other != nil {
+				panic(other)
+			}
+			if crashed != (k <= W) {
+				t.Fatalf("crash point %d of %d: crashed=%v", k, W, crashed)
+			}
+			phase := "before the switch"
+			if k > switchAt {
+				phase = "inside the atomic switch"
+			}
+			if k == W+1 {
+				phase = "clean"
+			}
+			where := fmt.Sprintf("FastSync(%d -> %d), crash before write %d of %d (%s)", oldHead, target, k, W, phase)
+			r, err := nodeOn(t, w, "restarted", sim.CopyDB(cdb.Image()), like)
+			if err != nil {
+				t.Fatalf("start-up sequence fails after %s: %v\nlast writes: %v", where, err, writeLog[max(0, k-4):min(len(writeLog), k+1)])
+			}
+			if r.Head().Root() != r.AppState.State.Root() || r.Head().IdentityRoot() != r.AppState.IdentityState.Root() {
+				t.Fatalf("after restart head roots differ from the loaded state (%s)", where)
+			}
+			hh := r.Head().Height()
+			if hh != oldHead && hh != target {
+				t.Fatalf("after restart the head is at %d, neither the old head %d nor the synced head %d (%s)", hh, oldHead, target, where)
+			}
+			if k == W+1 && hh != target {
+				t.Fatalf("clean restart after a finished fast sync: head %d, expected %d", hh, target)
+			}
+			if c := src.Chain.GetBlockHeaderByHeight(hh); c == nil || c.Hash() != r.Head().Hash() {
+				t.Fatalf("after restart the head at %d is not canonical (%s)", hh, where)
+			}
+			for x := hh + 1; x <= src.Head().Height(); x++ {
+				if err := r.AddBlock(src.Chain.GetBlockByHeight(x)); err != nil {
+					t.Fatalf("restarted node refuses block %d after %s: %v", x, where, err)
+				}
+			}
+			if r.Head().Hash() != src.Head().Hash() || r.AppState.State.Root() != src.AppState.State.Root() || r.AppState.IdentityState.Root() != src.AppState.IdentityState.Root() {
+				t.Fatalf("restarted node does not reach the source's head/state after %s", where)
+			}
+			if k <= W {
+				evid.NonTrivial(fmt.Sprintf("FastSync|%s|%d|%s", phase, (k*8)/(W+1), writeLog[k-1][:3]))
+				if k > switchAt {
+					evid.Count("crash.inside_atomic_switch")
+				} else {
+					evid.Count("crash.during_fast_sync_before_switch")
+				}
+			}
+		}
+		evid.Sample("scenario", fmt.Sprintf("FastSync %d->%d: %d writes, switch starts after write %d", oldHead, target, W, switchAt))
+	})
+}
